@@ -356,6 +356,24 @@ pub fn check_outcome(o: &Outcome, ovh: usize, vsz: usize) -> Vec<Fail> {
             check_capacity(op, pre, post, o, true, &mut v);
         }
     }
+    // `clone` takes `&self`: completed or aborted by a panic in user code, the source is as it was
+    if let (Op::Clone { .. }, Some(pre), Some(sp)) = (&o.line.op, &o.pre, &o.src_post) {
+        if pre.full && pre.walk_err.is_none() {
+            let same = sp.walk_err.is_none()
+                && (pre.len, pre.cur, pre.max, pre.cap, &pre.ord, &pre.rord) == (sp.len, sp.cur, sp.max, sp.cap, &sp.ord, &sp.rord)
+                && (!HAVE_HOOKS || pre.fingerprint == sp.fingerprint);
+            if !same {
+                let how = if o.panicked { "a clone aborted by a panic in user code" } else { "clone" };
+                for p in ["C19", "C14"] {
+                    fail(&mut v, p, format!("{} changed the source cache ({})", how,
+                        sp.walk_err.clone().unwrap_or_else(|| "state or link structure differs".to_owned())));
+                }
+                if o.panicked {
+                    fail(&mut v, "C16", "a clone aborted by a panic in user code changed the source cache".to_owned());
+                }
+            }
+        }
+    }
     let (op, pre) = match (&o.line.op, &o.pre) {
         (Op::On { op, .. }, Some(pre)) if pre.full && pre.walk_err.is_none() => (op, pre),
         (Op::Clone { .. }, Some(pre)) if pre.full => {
@@ -390,48 +408,6 @@ pub fn check_outcome(o: &Outcome, ovh: usize, vsz: usize) -> Vec<Fail> {
     if hash_free && h != 0 {
         fail(&mut v, "C20", format!("{} hashed {} keys; traversals, clear and LRU/MRU peeks hash nothing", op.text(), h));
     }
-    let post = match &o.post {
-        Some(p) if p.full && p.walk_err.is_none() => p,
-        _ => return v,
-    };
-    if post.max != ex.max {
-        fail(&mut v, "C01", format!("max_size is {} after {}", post.max, op.text()));
-    }
-    // contents / order
-    let got = ids(&post.ord);
-    let want = ids(&ex.ord);
-    if got != want {
-        let mut a = got.clone();
-        a.sort();
-        let mut b = want.clone();
-        b.sort();
-        if a != b {
-            fail(&mut v, ex.set_prop, format!("after {} the cache holds {:?} where {:?} is due", op.text(), got, want));
-            if ex.set_prop != "C04" {
-                fail(&mut v, "C04", format!("after {} the cache holds keys {:?} where {:?} is due", op.text(), got, want));
-            }
-        } else {
-            fail(&mut v, "C05", format!("after {} the order is {:?} where {:?} is due", op.text(), got, want));
-            // the order clause of the operation's own property
-            let own = match op {
-                OpKind::MutSet { .. } | OpKind::MutRep { .. } => Some("C11"),
-                OpKind::RetainIdx(_) | OpKind::RetainIds(_) => Some("C15"),
-                OpKind::Reserve(_) | OpKind::TryReserve(_) | OpKind::Shrink(_) | OpKind::ShrinkFit => Some("C13"),
-                OpKind::It { .. } => Some("C12"),
-                OpKind::Ins { .. } | OpKind::TIns { .. } if o.ret.is_rejection() => Some("C10"),
-                _ => None,
-            };
-            if let Some(p) = own {
-                fail(&mut v, p, format!("after {} the order is {:?} where {:?} is due", op.text(), got, want));
-            }
-        }
-    } else if post.ord != ex.ord {
-        let prop = match op {
-            OpKind::MutSet { .. } | OpKind::MutRep { .. } => "C11",
-            _ => "C04",
-        };
-        fail(&mut v, prop, format!("after {} an entry's key/value objects or size differ from what was stored", op.text()));
-    }
     // departures are dropped exactly when not handed back
     let mut want_drops: Vec<u64> = Vec::new();
     for e in &ex.departed {
@@ -464,7 +440,7 @@ pub fn check_outcome(o: &Outcome, ovh: usize, vsz: usize) -> Vec<Fail> {
         }
     }
     let returned = o.ret.owned();
-    want_drops.retain(|t| !returned.contains(t));
+    want_drops.retain(|t| !returned.contains(t) && crate::types::tracked(*t));
     let mut got_drops = dropped(&o.log);
     got_drops.sort();
     want_drops.sort();
@@ -478,12 +454,66 @@ pub fn check_outcome(o: &Outcome, ovh: usize, vsz: usize) -> Vec<Fail> {
             fail(&mut v, "C06", format!("{} dropped a token twice or dropped one it also handed back: {:?} / returned {:?}", op.text(), got_drops, returned));
         }
     }
+    let post = match &o.post {
+        Some(p) if p.full && p.walk_err.is_none() => p,
+        _ => return v,
+    };
+    if post.max != ex.max {
+        fail(&mut v, "C01", format!("max_size is {} after {}", post.max, op.text()));
+    }
+    // contents / order
+    let got = ids(&post.ord);
+    let want = ids(&ex.ord);
+    if got != want {
+        let mut a = got.clone();
+        a.sort();
+        let mut b = want.clone();
+        b.sort();
+        if a != b {
+            fail(&mut v, ex.set_prop, format!("after {} the cache holds {:?} where {:?} is due", op.text(), got, want));
+            if ex.set_prop != "C04" {
+                fail(&mut v, "C04", format!("after {} the cache holds keys {:?} where {:?} is due", op.text(), got, want));
+            }
+            // the operation's own property also speaks about what stays: a rejected insertion leaves the
+            // contents untouched (C10); mutate evicts older entries only, never the mutated one (C11)
+            let own = match op {
+                OpKind::Ins { .. } | OpKind::TIns { .. } if o.ret.is_rejection() => Some("C10"),
+                OpKind::MutSet { .. } | OpKind::MutRep { .. } => Some("C11"),
+                _ => None,
+            };
+            if let Some(p) = own {
+                if p != ex.set_prop {
+                    fail(&mut v, p, format!("after {} the cache holds keys {:?} where {:?} is due", op.text(), got, want));
+                }
+            }
+        } else {
+            fail(&mut v, "C05", format!("after {} the order is {:?} where {:?} is due", op.text(), got, want));
+            // the order clause of the operation's own property
+            let own = match op {
+                OpKind::MutSet { .. } | OpKind::MutRep { .. } => Some("C11"),
+                OpKind::RetainIdx(_) | OpKind::RetainIds(_) => Some("C15"),
+                OpKind::Reserve(_) | OpKind::TryReserve(_) | OpKind::Shrink(_) | OpKind::ShrinkFit => Some("C13"),
+                OpKind::It { .. } => Some("C12"),
+                OpKind::Ins { .. } | OpKind::TIns { .. } if o.ret.is_rejection() => Some("C10"),
+                _ => None,
+            };
+            if let Some(p) = own {
+                fail(&mut v, p, format!("after {} the order is {:?} where {:?} is due", op.text(), got, want));
+            }
+        }
+    } else if post.ord != ex.ord {
+        let prop = match op {
+            OpKind::MutSet { .. } | OpKind::MutRep { .. } => "C11",
+            _ => "C04",
+        };
+        fail(&mut v, prop, format!("after {} an entry's key/value objects or size differ from what was stored", op.text()));
+    }
     // order of evictions (C03: oldest first)
     if matches!(op, OpKind::Ins { .. } | OpKind::SetMax(_) | OpKind::MutSet { .. } | OpKind::MutRep { .. }) {
         let want_seq: Vec<u64> = ex
             .departed
             .iter()
-            .filter(|e| !returned.contains(&e.k.tok))
+            .filter(|e| !returned.contains(&e.k.tok) && crate::types::tracked(e.k.tok))
             .map(|e| e.k.tok)
             .collect();
         let got_seq: Vec<u64> = o.log.events.iter().filter_map(|e| if let Ev::DropK(t) = e { Some(*t) } else { None }).collect();
